@@ -11,6 +11,9 @@ Local Ltac divmod := Z.div_mod_to_equations.
 
 Definition lsum {A} (f : A -> N) (l : list A) : N := fold_right (fun x a => f x + a) 0 l.
 
+Lemma lsum_cons {A} (f : A -> N) : forall x l, lsum f (x :: l) = f x + lsum f l.
+Proof. reflexivity. Qed.
+
 Lemma lsum_app {A} (f : A -> N) : forall l1 l2, lsum f (l1 ++ l2) = lsum f l1 + lsum f l2.
 Proof. induction l1; simpl; intros; auto. rewrite IHl1. lia. Qed.
 
@@ -112,17 +115,19 @@ Lemma recs_split_pos : forall kvs pos l1 r l2,
 Proof.
   induction kvs; simpl; intros pos l1 r l2 Hb Hs.
   - destruct l1; discriminate.
-  - destruct l1 as [|x l1]; simpl in Hs; inversion Hs; subst.
-    + simpl. lia.
-    + rewrite next_pos_small in H2 by lia.
-      apply IHkvs in H2; try lia. simpl lsum. rewrite ser_rec_len. simpl.
+  - destruct l1 as [|x l1]; simpl in Hs.
+    + injection Hs as E1 E2. subst r. simpl. lia.
+    + injection Hs as E1 E2. subst x.
+      rewrite next_pos_small in E2 by lia.
+      apply IHkvs in E2; try lia. rewrite lsum_cons. rewrite ser_rec_len. cbn [fst snd].
       unfold rec_size in *. lia.
 Qed.
 
 Lemma recs_total : forall kvs pos,
   lsum (fun x => nlen (ser_rec x)) (recs_from pos kvs) = data_size kvs.
 Proof.
-  induction kvs; simpl; intros; auto. rewrite ser_rec_len. simpl. rewrite IHkvs. unfold rec_size. lia.
+  induction kvs; intros; cbn [recs_from data_size]. reflexivity.
+  rewrite lsum_cons, ser_rec_len, IHkvs. cbn [fst snd]. unfold rec_size. lia.
 Qed.
 
 (* ------------------------------------------------------------------ table positions *)
@@ -141,22 +146,23 @@ Lemma build_tables_chain : forall ents ids pos tabs,
 Proof.
   induction ids; cbn [build_tables]; intros pos tabs Hb Hs.
   - inversion Hb. simpl. auto.
-  - destruct (filter (in_table a) ents) eqn:Ef.
-    + destruct (build_tables ents ids pos) eqn:Eb; simpl in Hb; inversion Hb; subst.
-      simpl in *. unfold tsize at 1 in Hs. unfold tsize at 1. simpl in *. unfold nlen in *. simpl in *.
-      split; auto. rewrite N.add_0_r. apply IHids; auto. lia.
-    + destruct (build_table (s :: l0)); try discriminate.
-      destruct (build_tables ents ids (w32 (pos + 8 * nlen l1))) eqn:Eb; simpl in Hb; inversion Hb; subst.
-      simpl in Hs. unfold tsize at 1 in Hs. simpl in Hs.
+  - destruct (filter (in_table a) ents) as [|e0 es0] eqn:Ef.
+    + destruct (build_tables ents ids pos) eqn:Eb; cbn [rbind] in Hb; inversion Hb; subst.
+      rewrite lsum_cons in Hs. unfold tsize at 1 in Hs. cbn [snd] in Hs. change (nlen (@nil slot)) with 0 in Hs.
+      cbn [chain fst]. split; auto. unfold tsize at 1. cbn [snd]. change (nlen (@nil slot)) with 0.
+      replace (pos + 8 * 0) with pos by lia. apply IHids; auto; lia.
+    + destruct (build_table (e0 :: es0)) as [t1|]; try discriminate.
+      destruct (build_tables ents ids (w32 (pos + 8 * nlen t1))) eqn:Eb; cbn [rbind] in Hb; inversion Hb; subst.
+      rewrite lsum_cons in Hs. unfold tsize at 1 in Hs. cbn [snd] in Hs.
       rewrite w32_small in Eb by lia.
-      simpl. split; auto. unfold tsize at 1. simpl. apply IHids; auto. lia.
+      cbn [chain fst]. split; auto. unfold tsize at 1. cbn [snd]. apply IHids; auto; lia.
 Qed.
 
 Lemma chain_split : forall l1 x l2 pos, chain pos (l1 ++ x :: l2) -> fst x = pos + lsum tsize l1.
 Proof.
-  induction l1; simpl; intros x l2 pos Hc.
-  - destruct Hc. lia.
-  - destruct Hc as [_ Hc]. apply IHl1 in Hc. lia.
+  induction l1; cbn [app chain]; intros x l2 pos Hc.
+  - destruct Hc. simpl. lia.
+  - destruct Hc as [_ Hc]. apply IHl1 in Hc. rewrite lsum_cons. lia.
 Qed.
 
 (* fill keeps the table length; every table has 2 * (its entries) slots *)
@@ -180,15 +186,18 @@ Lemma build_tables_slots : forall (ents : list slot) ids pos tabs, 2 * nlen ents
 Proof.
   intros ents ids. induction ids; cbn [build_tables]; intros pos tabs H32 Hb.
   - inversion Hb. auto.
-  - destruct (filter (in_table a) ents) eqn:Ef.
-    + destruct (build_tables ents ids pos) eqn:Eb; simpl in Hb; inversion Hb; subst.
-      simpl. rewrite (IHids _ _ H32 Eb). unfold tsize, nlen. simpl. lia.
+  - rewrite lsum_cons.
+    destruct (filter (in_table a) ents) as [|e0 es0] eqn:Ef.
+    + destruct (build_tables ents ids pos) eqn:Eb; cbn [rbind] in Hb; inversion Hb; subst.
+      rewrite lsum_cons. rewrite (IHids _ _ H32 Eb). unfold tsize. cbn [snd].
+      change (nlen (@nil slot)) with 0. lia.
     + rewrite <- Ef in *.
-      destruct (build_table (filter (in_table a) ents)) eqn:Et; try discriminate.
-      destruct (build_tables ents ids (w32 (pos + 8 * nlen l1))) eqn:Eb; simpl in Hb; inversion Hb; subst.
-      simpl. rewrite (IHids _ _ H32 Eb). unfold tsize at 1. simpl.
-      rewrite (build_table_length _ _ ltac:(pose proof (filter_length_le (in_table a) ents); unfold nlen in *; lia) Et).
-      lia.
+      destruct (build_table (filter (in_table a) ents)) as [t1|] eqn:Et; try discriminate.
+      destruct (build_tables ents ids (w32 (pos + 8 * nlen t1))) eqn:Eb; cbn [rbind] in Hb; inversion Hb; subst.
+      rewrite lsum_cons. rewrite (IHids _ _ H32 Eb). unfold tsize at 1. cbn [snd].
+      assert (Hle : 2 * nlen (filter (in_table a) ents) < 4294967296).
+      { pose proof (filter_length_le (in_table a) ents). unfold nlen in *. lia. }
+      rewrite (build_table_length _ _ Hle Et). lia.
 Qed.
 
 (* the 256 tables partition the entries *)
@@ -196,28 +205,28 @@ Lemma count_ids : forall c n a,
   lsum (fun i => if c =? i then 1 else 0) (map N.of_nat (seq a n)) =
   if (N.of_nat a <=? c) && (c <? N.of_nat (a + n)) then 1 else 0.
 Proof.
-  induction n; simpl; intros.
-  - destruct (N.leb_spec (N.of_nat a) c); destruct (N.ltb_spec c (N.of_nat (a + 0))); simpl; auto; lia.
-  - rewrite IHn.
+  induction n; intros; cbn [seq map].
+  - simpl. destruct (N.leb_spec (N.of_nat a) c); destruct (N.ltb_spec c (N.of_nat (a + 0))); simpl; auto; lia.
+  - rewrite lsum_cons. rewrite IHn.
     destruct (N.eqb_spec c (N.of_nat a));
       destruct (N.leb_spec (N.of_nat (S a)) c); destruct (N.ltb_spec c (N.of_nat (S a + n)));
-      destruct (N.leb_spec (N.of_nat a) c); destruct (N.ltb_spec c (N.of_nat (a + S n))); simpl; lia.
+      destruct (N.leb_spec (N.of_nat a) c); destruct (N.ltb_spec c (N.of_nat (a + S n))); simpl andb; cbv iota; lia.
 Qed.
 
 Lemma partition_sum : forall ents : list slot,
   lsum (fun i => nlen (filter (in_table i) ents)) table_ids = nlen ents.
 Proof.
   induction ents.
-  - simpl. rewrite (lsum_ext _ (fun _ => 0)) by auto. rewrite lsum_const. lia.
+  - cbn [filter]. rewrite lsum_const. change (nlen (@nil slot)) with 0. lia.
   - assert (E : forall ids, lsum (fun i => nlen (filter (in_table i) (a :: ents))) ids =
                  lsum (fun i => if fst a mod 256 =? i then 1 else 0) ids
                  + lsum (fun i => nlen (filter (in_table i) ents)) ids).
-    { induction ids; simpl; auto. rewrite IHids. unfold in_table at 1.
-      destruct (fst a mod 256 =? a0); unfold nlen; simpl length; lia. }
+    { induction ids. reflexivity. rewrite !lsum_cons. rewrite IHids. cbn [filter]. unfold in_table at 1.
+      destruct (fst a mod 256 =? a0); unfold nlen; cbn [length]; lia. }
     rewrite E, IHents. unfold table_ids. rewrite count_ids.
     pose proof (N.mod_lt (fst a) 256 ltac:(lia)).
     destruct (N.leb_spec (N.of_nat 0) (fst a mod 256)); destruct (N.ltb_spec (fst a mod 256) (N.of_nat (0 + 256)));
-      simpl; unfold nlen; simpl length; lia.
+      simpl andb; cbv iota; unfold nlen; cbn [length]; lia.
 Qed.
 
 (* ------------------------------------------------------------------ the image the writer produces *)
